@@ -192,6 +192,37 @@ pub fn handle(f: &[&str]) -> Option<String> {
             let bs = unhex(h);
             Some(format!("{} # {}", complete_str(&bs), stream_str(&bs, 3)))
         }
+        // palloc <hex>: heap requests of complete::parse and of iterating streaming::Parser
+        ["palloc", h] => {
+            let bs = unhex(h);
+            let (b0, c0) = crate::alloc_snapshot();
+            let r = catch_unwind(|| complete::parse(&bs).is_ok());
+            let (b1, c1) = crate::alloc_snapshot();
+            let mut n = 0usize;
+            let r2 = catch_unwind(AssertUnwindSafe(|| {
+                let mut p = Parser::new(&bs);
+                for _ in 0..bs.len() + 5 {
+                    if p.next().is_none() {
+                        break;
+                    }
+                    n += 1;
+                }
+            }));
+            let (b2, c2) = crate::alloc_snapshot();
+            Some(format!(
+                "complete={}:bytes={}:calls={};streaming={}:bytes={}:calls={}",
+                match r {
+                    Ok(true) => "ok",
+                    Ok(false) => "err",
+                    Err(_) => "P",
+                },
+                b1 - b0,
+                c1 - c0,
+                if r2.is_ok() { "done" } else { "P" },
+                b2 - b1,
+                c2 - c1
+            ))
+        }
         _ => None,
     }
 }
